@@ -31,6 +31,9 @@ THEOREMS = [
     ("arguments_compose",
      "forall a b : str, quotes (run_state split_init a) = QNo -> escaped (run_state split_init a) = 0 -> "
      "quoted_str_split (a ++ c_space :: b) = quoted_str_split a ++ quoted_str_split b"),
+    ("encoded_prefix_is_sealed",
+     "forall (l : list str) (b : str), "
+     "quoted_str_split (join_sp (map encode_quoted_str l) ++ c_space :: b) = l ++ quoted_str_split b"),
     ("utf8_decode_encode",
      "forall s : str, all_scalar s = true -> utf8_decode (utf8_encode s) = Some s"),
     ("frame_spec",
